@@ -53,6 +53,10 @@ h("VerifGetCasZstdAsZstd", D, GET, GB + "; as above", "GetZstd on compressed CAS
 h("VerifGetCasRaw", D, GET, GB + "; raw .v1 files", "Get on uncompressed CAS", unwind=16)
 h("VerifGetCasRawAsZstd", D, GET, GB + "; raw .v1 files; 2 threads (encoder goroutine), <=2 preemptions", "GetZstd on uncompressed CAS (legacy encoder goroutine through io.Pipe)", unwind=16)
 h("VerifGetAC", D, GET, GB, "Get on AC", unwind=16)
+h("VerifGetCasRawInZstdMode", D, GET, GB + "; raw .v1 files (written in uncompressed mode) read by a server running in zstd mode", "entries written under the other storage mode stay readable with unchanged content (Get)", unwind=16)
+h("VerifGetCasRawInZstdModeAsZstd", D, GET, GB + "; as above, GetZstd", "as above (GetZstd, on-the-fly encoder)", unwind=16)
+h("VerifGetCasZstdInRawMode", D, GET, GB + "; conformant v2 casblob files (3 table entries) read by a server running in uncompressed mode", "entries written under the other storage mode stay readable with unchanged content (Get)", unwind=16)
+h("VerifGetCasZstdInRawModeAsZstd", D, GET, GB + "; as above, GetZstd", "as above (GetZstd)", unwind=16)
 h("VerifGetSpecial", D, GET, "-", "empty blob always readable; compressed reads only from the CAS; malformed hash rejected")
 h("VerifContains", D, GET, "1-2 entries, optional backend with arbitrary verdict and size", "Contains: exact, size limits, recency")
 PG = "0-1 entries; backend: miss / error / error+reader / stream of any length failing at any byte; advertised size, requested size, offset, hard limit, backlog symbolic"
@@ -66,16 +70,16 @@ ACB = "ActionResult with <=%d output files (inline or not), <=1 output directory
 h("VerifValidatedAC", D, AC, ACB % 1, "GetValidatedActionResult: hit iff every referenced blob is present with its declared size; absence is a miss, not an error; a hit touches every local referenced blob", unwind=16)
 h("VerifValidatedACDir", D, AC, "ActionResult with one output directory whose Tree has one root file and one child file, optional stdout/stderr", "as VerifValidatedAC (Tree path)", unwind=16)
 h("VerifValidatedAC2", D, AC, ACB % 2, "as VerifValidatedAC", unwind=16)
-h("VerifValidatedACProxy", D, AC, "one output file + optional stdout digest, backend with arbitrary verdict, 2 containsWorker goroutines + the wait goroutine, <=1 preemption, every choice of a ready select case explored", "hit only if every blob is local or vouched for by the backend (fail-fast search)", unwind=16, switches=1, timeout_s=1500)
+h("VerifValidatedACProxy", D, AC, "one output file + optional stdout digest, backend with arbitrary verdict, 2 containsWorker goroutines + the wait goroutine, <=1 preemption, every choice of a ready select case explored", "hit only if every blob is local or vouched for by the backend (fail-fast search)", unwind=16, switches=1, timeout_s=1500, races=True)
 
 FM = ["zz_verif_findmissing.go"]
 FMB = "request of <=%d digests, each: indexed hash H0/H1 with symbolic stated size, unknown hash, or the empty blob; 2 indexed entries with symbolic sizes"
 h("VerifFindMissing3", D, FM, FMB % 3, "FindMissingCasBlobs returns exactly the absent digests in order, duplicates preserved")
 h("VerifFindMissing4", D, FM, FMB % 4, "as VerifFindMissing3")
-h("VerifFindMissingProxy1", D, FM, (FMB % 1) + "; backend verdict per hash; 1 containsWorker goroutine + the wait goroutine, <=1 preemption, round-robin at blocking points", "as above with a backend", unwind=16, switches=1)
+h("VerifFindMissingProxy1", D, FM, (FMB % 1) + "; backend verdict per hash; 1 containsWorker goroutine + the wait goroutine, <=1 preemption, round-robin at blocking points", "as above with a backend", unwind=16, switches=1, races=True)
 h("VerifFindMissingProxy2", D, FM, (FMB % 2) + "; backend; 2 containsWorker goroutines, <=2 preemptions", "as above with a backend", unwind=16, switches=2, timeout_s=3000)
 h("VerifFindMissingBatch", D, FM, "21 digests: 1 symbolic, 19 empty-blob filler, 1 symbolic after the batch edge", "batch slicing at 20")
-h("VerifFindMissingBatchProxy", D, FM, "21 digests with backend: first digest unknown locally (backend verdict symbolic), 19 empty-blob filler, last digest locally present or empty; 1 containsWorker, no preemption", "a batch without local misses after a batch with backend lookups still waits for them", unwind=16, switches=-1)
+h("VerifFindMissingBatchProxy", D, FM, "21 digests with backend: first digest unknown locally (backend verdict symbolic), 19 empty-blob filler, last digest locally present or empty; 1 containsWorker, no preemption", "a batch without local misses after a batch with backend lookups still waits for them", unwind=16, switches=-1, races=True)
 h("VerifFindMissingBatch2", D, FM, "21 digests with backend: 2 symbolic, 18 filler, 1 symbolic", "batch slicing at 20 with backend")
 h("VerifFilterNonNil", D, FM, "<=4 entries, any nil pattern", "filterNonNil keeps order and drops exactly the nil entries", native=True)
 
@@ -131,16 +135,17 @@ h("VerifCrashFetchAC", D, CR, "as VerifCrashFetchCasRaw for an action-cache entr
 
 CC = ["zz_verif_conc.go", "zz_verif_put.go"]
 CCB = "two goroutines, <= %d preemptions at mutex acquisitions / file-system steps / channel operations (round-robin at blocking points); sizes symbolic"
-h("VerifConcReadersCorrupt", D, CC, CCB % 2 + "; 1..2 entries, the one read is too short to hold a header", "two concurrent readers of a corrupt entry: not served, dropped once, accounting and directory exact at quiescence", unwind=24, switches=2)
-h("VerifConcReadOverwrite", D, CC, CCB % 2 + "; one AC entry, reader with known or unknown size, overwriting upload of 1..2^30 bytes", "a reader concurrent with an overwrite gets a miss or one whole version; C03/C04 at quiescence; no goroutine or file left", unwind=24, switches=2)
-h("VerifConcReadOverwriteEvict", D, CC, CCB % 2 + "; one AC entry, reader with known or unknown size, overwriting upload, the background remover as a third goroutine (one batch), no space pressure", "as VerifConcReadOverwrite, including the slow path taken when the replaced file vanishes between index lookup and open", unwind=24, switches=2)
-h("VerifConcCorruptReadPut", D, CC, CCB % 2 + "; one corrupt compressed CAS entry, a reader and a re-upload of the same blob", "dropping a corrupt entry concurrently with its replacement keeps index, accounting and directory consistent", unwind=24, switches=2)
-h("VerifConcPutPut", D, CC, CCB % 1 + "; empty cache, two uploads of one AC key, 1..2^30 bytes each, no space pressure", "two concurrent uploads of one key: one whole acknowledged version survives; C03/C04 at quiescence", unwind=24, switches=1)
-h("VerifConcPutPutDeep", D, CC, CCB % 2 + "; 0..1 prior entries, two uploads of one AC key, 1..2^30 bytes each, no space pressure", "as VerifConcPutPut", unwind=24, switches=2, timeout_s=1500)
-h("VerifConcReadOverwriteDeep", D, CC, CCB % 3 + "; one AC entry, reader with known or unknown size, overwriting upload, no space pressure; Mutex.Unlock is a preemption point as well", "as VerifConcReadOverwrite", unwind=24, switches=3, yield_unlock=True, timeout_s=1500)
+h("VerifConcReadersCorrupt", D, CC, CCB % 2 + "; 1..2 entries, the one read is too short to hold a header", "two concurrent readers of a corrupt entry: not served, dropped once, accounting and directory exact at quiescence", unwind=24, switches=2, races=True)
+h("VerifConcReadOverwrite", D, CC, CCB % 2 + "; one AC entry, reader with known or unknown size, overwriting upload of 1..2^30 bytes", "a reader concurrent with an overwrite gets a miss or one whole version; C03/C04 at quiescence; no goroutine or file left", unwind=24, switches=2, races=True)
+h("VerifConcReadOverwriteEvict", D, CC, CCB % 2 + "; one AC entry, reader with known or unknown size, overwriting upload, the background remover as a third goroutine (one batch), no space pressure", "as VerifConcReadOverwrite, including the slow path taken when the replaced file vanishes between index lookup and open", unwind=24, switches=2, races=True)
+h("VerifConcCorruptReadPut", D, CC, CCB % 2 + "; one corrupt compressed CAS entry, a reader and a re-upload of the same blob", "dropping a corrupt entry concurrently with its replacement keeps index, accounting and directory consistent", unwind=24, switches=2, races=True)
+h("VerifConcPutPut", D, CC, CCB % 1 + "; empty cache, two uploads of one AC key, 1..2^30 bytes each, no space pressure", "two concurrent uploads of one key: one whole acknowledged version survives; C03/C04 at quiescence", unwind=24, switches=1, races=True)
+h("VerifConcPutPutDeep", D, CC, CCB % 2 + "; 0..1 prior entries, two uploads of one AC key, 1..2^30 bytes each, no space pressure", "as VerifConcPutPut", unwind=24, switches=2, timeout_s=1500, races=True)
+h("VerifConcReadOverwriteDeep", D, CC, CCB % 3 + "; one AC entry, reader with known or unknown size, overwriting upload, no space pressure; Mutex.Unlock is a preemption point as well", "as VerifConcReadOverwrite", unwind=24, switches=3, yield_unlock=True, timeout_s=1500, races=True)
 
 CF = "./config"
 CFF = ["zz_verif_config.go"]
+h("VerifFlagsYamlAgree", CF, ["zz_verif_frontends.go"], "one set of explicit settings (sizes, limits, uploader counts, timeouts symbolic; booleans symbolic; storage mode, zstd implementation, log settings, listener addresses in modern or deprecated host/port form from small fixed sets; no TLS/auth/backend settings) given as flags and as a YAML document; urfave/cli and yaml.v3 replaced by identity models", "flags and YAML yield the same verdict and the same effective configuration (basic fields), including the deprecated host/port forms", strings=True)
 h("VerifValidateConfigRefuses", CF, CFF, "12 invalid classes, one at a time; the settings of the class arbitrary within it, the sizes, the TLS/htpasswd file settings and allow_unauthenticated_reads arbitrary, the remaining settings fixed valid values", "validateConfig returns an error for every completion of the other settings", strings=True)
 h("VerifValidateConfigAccepts", CF, CFF, "-", "a minimal sane configuration is accepted; the same with a port conflict is refused", strings=True)
 
@@ -149,9 +154,12 @@ h("VerifUpdateActionResult", SV, ACH, "UpdateActionResult with one of 13 defect 
 h("VerifGetActionResultInline", SV, ACH, "stored result with stdout and one output file, each inline (1..4 MiB symbolic) or by digest (1..4 MiB symbolic, blob available); inline_stdout / inline_output_files requested or not; de-inlining Puts succeed", "GetActionResult: total inlined bytes <= 3 MiB budget, inlined bytes are the blob / the stored bytes, de-inlined only after storing under the true digest", unwind=16)
 h("VerifGetActionResultMiss", SV, ACH, "-", "validated miss maps to NotFound; nil request / digest rejected")
 
+h("VerifSpliceBlob", SV, ["zz_verif_splice.go"], "two chunks of symbolic sizes 1..2^30, each present or absent; declared size, max_blob_size symbolic; the cache has room, refuses without reading (507), or already holds the blob; the concatenation is or is not the declared blob", "SpliceBlob acknowledges only a stored concatenation of the right size and digest; size limit; no goroutine or chunk reader left on any return", unwind=16)
 HT = ["zz_verif_http.go", "zz_verif_ac.go"]
 h("VerifHTTPGet", SV, HT, "GET /cas/<h> or /ac/<h> (raw), Accept-Encoding with or without zstd, cache answers miss / error / stream of symbolic size", "HTTP GET: the read goes to the URL's namespace, compressed reads only from the CAS, body = the blob, Content-Length = size", unwind=16)
 h("VerifHTTPPut", SV, HT, "PUT /cas/<h> or /ac/<h> (raw): Content-Length, body length, max_blob_size symbolic; Content-Encoding none/identity/zstd/other; zstd body decodes to a symbolic length or is corrupt; cache Put fails with 507 or not", "HTTP PUT acknowledges only an upload stored under the declared size; size limit; 507 mapping", unwind=16)
+h("VerifHTTPClientCert", SV, HT, "GET/HEAD/PUT of a CAS blob; reads-flag and writes-flag each on or off; connection plain, TLS without chains, TLS with an empty chain, TLS with a verified certificate", "client certificates on the HTTP front end: reads gated by the reads flag, PUT by the writes flag; a refused request is 401 and never reaches the cache")
+h("VerifHTTPInstanceName", SV, HT, "GET /<instance>/ac/<h> with key mangling on, six instance names (empty, plain, nested, with a space, containing ac/blobs segments, with a percent sign)", "the HTTP front end mangles the action key with the instance name exactly as TransformActionCacheKey does for gRPC")
 h("VerifHTTPPutAC", SV, HT, "validated PUT /ac/<h>: body 1..4096 bytes, wire or JSON, declared JSON or not, plain or zstd-wrapped, parses or not, one of 13 defect classes or none, worker given or not", "HTTP AC upload: invalid / unparseable / wrongly-typed bodies are client errors that store nothing; accepted ones are stored once as the wire serialisation of the uploaded message", unwind=16)
 
 # property -> (quick harnesses, additional thorough harnesses, assumptions, outside)
@@ -160,7 +168,7 @@ HASH = "sha256 replaced by a provenance model: collision-free, digest equals the
 FSM = "file system model with process-kill semantics (writes visible in program order); one read of a regular file returns all that is available"
 STUBS = ["prometheus, log: empty bodies", "fmt.Errorf / errors.Is modelled (text opaque, %w kept)", "time.Now fixed"]
 P = {
- "C01": (["VerifWriteZstd2", "VerifPutCasZstd", "VerifPutCasRaw", "VerifPutAC", "VerifBatchUpdateBlobs", "VerifBytestreamWrite2", "VerifBytestreamWriteZstd2", "VerifHTTPPut"], ["VerifWriteZstd3", "VerifWriteIdentity", "VerifPutCasZstdProxy", "VerifPutCasRawProxy"],
+ "C01": (["VerifWriteZstd2", "VerifPutCasZstd", "VerifPutCasRaw", "VerifPutAC", "VerifBatchUpdateBlobs", "VerifBytestreamWrite2", "VerifBytestreamWriteZstd2", "VerifHTTPPut", "VerifSpliceBlob"], ["VerifWriteZstd3", "VerifWriteIdentity", "VerifPutCasZstdProxy", "VerifPutCasRawProxy"],
          [CODEC, HASH, FSM], ["real sha256 and zstd", "blobs of more than 3 chunks", "the HTTP/gRPC transports' own length enforcement"]),
  "C02": (["VerifReadUncompressed4", "VerifReadZstd4", "VerifReadIdentity", "VerifReadWrongSize", "VerifGetCasZstd", "VerifGetCasZstdAsZstd", "VerifGetCasRaw", "VerifGetAC", "VerifGetSpecial", "VerifHTTPGet", "VerifBatchReadBlobs"],
          ["VerifReadUncompressed6", "VerifReadZstd6", "VerifGetCasRawAsZstd"], [CODEC, FSM], ["that a standard zstd decoder decodes the frames", "tables of more than 6 entries", "read offsets beyond the blob when the size is not given"]),
@@ -170,21 +178,21 @@ P = {
          ["VerifPutCasZstd", "VerifPutCasZstdProxy", "VerifGetCasZstd", "VerifProxyGetCasRaw", "VerifProxyGetCasZstd"], [FSM, CODEC, HASH], ["files created by anything other than bazel-remote", "directory fsync"]),
  "C05": (["VerifLRUAdd3", "VerifLRUReserve3", "VerifLRUGet", "VerifGetAC", "VerifContains", "VerifFindMissing3"], ["VerifLRUAdd4", "VerifLRUReserve4", "VerifGetCasZstd", "VerifGetCasRaw"], [FSM], ["atime order after restart (C09)", "more live entries than the bound"]),
  "C06": (["VerifValidatedAC", "VerifValidatedACDir", "VerifValidatedACProxy", "VerifGetActionResultMiss"], ["VerifValidatedAC2"], [FSM, "proto.Unmarshal by identity: stored bytes decode to the registered message"], ["real protobuf decoding", "races between the check and a concurrent eviction"]),
- "C07": (["VerifConcReadersCorrupt", "VerifConcReadOverwrite", "VerifConcReadOverwriteEvict", "VerifConcPutPut", "VerifConcCorruptReadPut"], ["VerifConcPutPutDeep", "VerifConcReadOverwriteDeep"], [FSM, HASH, CODEC, "sequentially consistent interleaving of goroutines at the scheduling points (mutex acquisition, file-system step, channel operation, go statement); a blocked goroutine hands over round-robin"],
-         ["data races / the Go memory model (the executor interleaves whole instructions sequentially consistently: `depends on unsynchronised memory access` is not decided)", "more than two concurrent requests, more preemptions than the bound", "backend fetches and the FindMissing worker pool under preemption (decided for their own schedules in C10/C12)", "the gRPC/HTTP handlers above the disk layer"]),
+ "C07": (["VerifConcReadersCorrupt", "VerifConcReadOverwrite", "VerifConcReadOverwriteEvict", "VerifConcPutPut", "VerifConcCorruptReadPut", "VerifFindMissingProxy1", "VerifFindMissingBatchProxy"], ["VerifConcPutPutDeep", "VerifConcReadOverwriteDeep", "VerifValidatedACProxy"], [FSM, HASH, CODEC, "sequentially consistent interleaving of goroutines at the scheduling points (mutex acquisition, file-system step, channel operation, go statement); a blocked goroutine hands over round-robin"],
+         ["data races on the abstract byte objects and inside the environment models (the happens-before obligations cover pointer loads/stores and map operations of repository and dependency code; weak-memory effects are not modelled)", "more than two concurrent requests, more preemptions than the bound", "backend fetches and the FindMissing worker pool under preemption (decided for their own schedules in C10/C12)", "the gRPC/HTTP handlers above the disk layer"]),
  "C08": (["VerifCrashPutCasRaw", "VerifCrashPutAC", "VerifCrashPutCasZstd", "VerifCrashPutCasZstdBad", "VerifCrashFetchCasZstd", "VerifCrashFetchCasRaw", "VerifCrashFetchAC"], [], [FSM, HASH, CODEC], ["power loss, write reordering, fsync (process-kill semantics only)", "kill during start-up migration", "kill during overwrite/eviction (uploads and backend fetches into an empty cache only)"]),
- "C09": (["VerifLoad2", "VerifLoadDup", "VerifLoadExtras"], ["VerifLoad3"], [FSM, "access times are the model's (distinct) integers"], ["real readdir order and atime semantics (relatime)", "legacy v0/v1 layouts (migration code is executed only on a current layout)", "more than 3 files", "schedules other than round-robin"]),
+ "C09": (["VerifLoad2", "VerifLoadDup", "VerifLoadExtras", "VerifGetCasRawInZstdMode", "VerifGetCasZstdInRawMode"], ["VerifLoad3", "VerifGetCasRawInZstdModeAsZstd", "VerifGetCasZstdInRawModeAsZstd"], [FSM, "access times are the model's (distinct) integers"], ["real readdir order and atime semantics (relatime)", "legacy v0/v1 layouts (migration code is executed only on a current layout)", "more than 3 files", "schedules other than round-robin"]),
  "C10": (["VerifFindMissing3", "VerifFindMissingProxy1", "VerifFindMissingBatch", "VerifFindMissingBatchProxy", "VerifFilterNonNil", "VerifContains", "VerifProxyGetCasZstd"], ["VerifFindMissing4", "VerifFindMissingProxy2", "VerifFindMissingBatch2"], ["the backend is an arbitrary per-hash verdict"], ["hundreds of digests with all states symbolic", "512 real workers", "more than 2 preemptive context switches"]),
  "C11": (["VerifValidateFilesDirs", "VerifValidateSymlinks", "VerifValidateNil", "VerifGetActionResultInline", "VerifGetActionResultMiss", "VerifUpdateActionResult", "VerifHTTPPutAC"], [], ["strings are ASCII (Go byte strings and SMT code-point strings agree there)"], ["field-by-field fidelity of proto.Marshal/Unmarshal and protojson", "non-ASCII strings"]),
  "C12": (["VerifProxyGetAC", "VerifProxyGetCasRaw", "VerifProxyGetCasZstd", "VerifPutRawProxy"], ["VerifProxyGetCasZstdZ", "VerifPutCasZstdProxy", "VerifPutCasRawProxy"], [FSM, CODEC, HASH, "the backend is an arbitrary cache.Proxy stub"], ["minio/azure/gcs SDK calls", "real HTTP body semantics"]),
- "C13": (["VerifGrpcBasicAuth", "VerifGrpcBasicAuthAccepts", "VerifGrpcMTLS", "VerifHTTPAuthWiring"], [], ["auth.CheckSecret is an arbitrary predicate", "strings are ASCII"], ["htpasswd hash checking, TLS handshake and certificate verification, LDAP", "whether grpc-go calls the interceptors for every method"]),
- "C14": (["VerifReadArbitrary2", "VerifReadZstd4", "VerifReadUncompressed4", "VerifGetCasZstd", "VerifGetSpecial", "VerifGetTree", "VerifBatchReadBlobs", "VerifBytestreamWrite2", "VerifFindMissingProxy1", "VerifValidatedACProxy"], ["VerifReadArbitrary3", "VerifGetCasZstdAsZstd", "VerifGetCasRawAsZstd", "VerifProxyGetCasZstd"], [FSM, CODEC], ["panics inside stubbed libraries", "resource exhaustion by volume"]),
- "C15": (["VerifGrpcACKeyMangling", "VerifLookupKey", "VerifGetSpecial", "VerifHTTPGet"], [], ["sha256 is injective on byte strings (digest texts are fresh 64-hex strings with pairwise (content equal <=> digest equal))", "strings are ASCII", "disk.Cache replaced by a recording stub"], ["sha256 itself", "non-ASCII instance names", "isolation after eviction (C03/C04)", "the HTTP path-prefix clause: harnesses VerifParseRequestURL / VerifHTTPGrpcSameKey exist but no solver decides 'every URL /I/ac/h matches ^/?(.*/)?(ac/|cas/)([a-f0-9]{64})$ with instance I' within budget (cvc5 and z3 time out at 60 s even with |I| <= 6), so the URL grammar is not claimed"]),
+ "C13": (["VerifGrpcBasicAuth", "VerifGrpcBasicAuthAccepts", "VerifGrpcMTLS", "VerifHTTPAuthWiring", "VerifHTTPClientCert"], [], ["auth.CheckSecret is an arbitrary predicate", "strings are ASCII"], ["htpasswd hash checking, TLS handshake and certificate verification, LDAP", "whether grpc-go calls the interceptors for every method"]),
+ "C14": (["VerifReadArbitrary2", "VerifReadZstd4", "VerifReadUncompressed4", "VerifGetCasZstd", "VerifGetSpecial", "VerifGetTree", "VerifBatchReadBlobs", "VerifBytestreamWrite2", "VerifFindMissingProxy1", "VerifValidatedACProxy", "VerifSpliceBlob"], ["VerifReadArbitrary3", "VerifGetCasZstdAsZstd", "VerifGetCasRawAsZstd", "VerifProxyGetCasZstd"], [FSM, CODEC], ["panics inside stubbed libraries", "resource exhaustion by volume"]),
+ "C15": (["VerifGrpcACKeyMangling", "VerifLookupKey", "VerifGetSpecial", "VerifHTTPGet", "VerifHTTPInstanceName"], [], ["sha256 is injective on byte strings (digest texts are fresh 64-hex strings with pairwise (content equal <=> digest equal))", "strings are ASCII", "disk.Cache replaced by a recording stub"], ["sha256 itself", "non-ASCII instance names", "isolation after eviction (C03/C04)", "the HTTP path-prefix clause: harnesses VerifParseRequestURL / VerifHTTPGrpcSameKey exist but no solver decides 'every URL /I/ac/h matches ^/?(.*/)?(ac/|cas/)([a-f0-9]{64})$ with instance I' within budget (cvc5 and z3 time out at 60 s even with |I| <= 6), so the URL grammar is not claimed"]),
  "C16": (["VerifBytestreamWrite2", "VerifBytestreamWriteZstd2", "VerifQueryWriteStatus"], ["VerifBytestreamWrite3"], ["disk.Cache replaced by a contract stub (Put consumes the reader and accepts exactly the declared bytes)"], ["grpc-go's own stream behaviour", "more than 3 messages", "more than 2 preemptive context switches"]),
  "C17": (["VerifLRUReserve3", "VerifLRURemove", "VerifLRUAdd3", "VerifPutAC", "VerifProxyGetAC"], ["VerifLRUReserve4", "VerifPutCasZstd", "VerifPutCasRaw", "VerifProxyGetCasRaw"], [FSM], ["real unlink latency"]),
- "C18": (["VerifPutAC", "VerifPutCasRaw", "VerifContains", "VerifProxyGetAC", "VerifBatchUpdateBlobs", "VerifBytestreamWrite2", "VerifHTTPPut", "VerifFindMissingBatchProxy"], ["VerifPutCasZstd", "VerifProxyGetCasRaw", "VerifProxyGetCasZstd"], [FSM, HASH], ["transport-level message size limits"]),
- "C19": (["VerifValidateConfigRefuses", "VerifValidateConfigAccepts"], [], ["net.SplitHostPort modelled by its contract (host:port / [host]:port)", "strings are ASCII"], ["the flags-versus-YAML agreement clause (urfave/cli and yaml.v3 are outside reach; F13/F14 candidates of DESIGN section 1 are not decided)", "environment-variable resolution", "setTLSConfig / setProxy / setLogger"]),
- "C20": (["VerifWriteZstd2", "VerifReadUncompressed4", "VerifReadZstd4", "VerifReadIdentity"], ["VerifWriteZstd3", "VerifReadUncompressed6", "VerifReadZstd6"], [CODEC, FSM], ["that chunk payloads are standard zstd frames", "files with more table entries than the bound"]),
+ "C18": (["VerifPutAC", "VerifPutCasRaw", "VerifContains", "VerifProxyGetAC", "VerifBatchUpdateBlobs", "VerifBytestreamWrite2", "VerifHTTPPut", "VerifFindMissingBatchProxy", "VerifSpliceBlob"], ["VerifPutCasZstd", "VerifProxyGetCasRaw", "VerifProxyGetCasZstd"], [FSM, HASH], ["transport-level message size limits"]),
+ "C19": (["VerifValidateConfigRefuses", "VerifValidateConfigAccepts", "VerifFlagsYamlAgree"], [], ["net.SplitHostPort modelled by its contract (host:port / [host]:port)", "strings are ASCII"], ["the flags-versus-YAML agreement clause (urfave/cli and yaml.v3 are outside reach; F13/F14 candidates of DESIGN section 1 are not decided)", "environment-variable resolution", "setTLSConfig / setProxy / setLogger"]),
+ "C20": (["VerifWriteZstd2", "VerifReadUncompressed4", "VerifReadZstd4", "VerifReadIdentity", "VerifGetCasRawInZstdMode", "VerifGetCasZstdInRawMode"], ["VerifWriteZstd3", "VerifReadUncompressed6", "VerifReadZstd6", "VerifGetCasRawInZstdModeAsZstd", "VerifGetCasZstdInRawModeAsZstd"], [CODEC, FSM], ["that chunk payloads are standard zstd frames", "files with more table entries than the bound"]),
 }
 
 # witnesses that only some variants of a shared harness body can reach
